@@ -27,3 +27,24 @@ func FuzzQuery(f *testing.F) {
 		_, _ = cmd.VerifProcessQuery(q, g, "json")
 	})
 }
+
+// FuzzBuild: any byte string as a .java file must be turned into a graph without panicking.
+func FuzzBuild(f *testing.F) {
+	f.Add([]byte("class A { int f(int a){ if (a > 0) { return a + 1; } assert a >= 0 : \"m\"; return switch (a) { default -> { yield 1; } }; } }"))
+	f.Add([]byte("/** @author x */ @Deprecated public class B extends C implements D, E { private int x = new F(1, \"s\").g(); }"))
+	f.Fuzz(func(t *testing.T, src []byte) {
+		r := handle(&Req{Op: "build", Hex: hexOf(src), File: "F.java", NoNodes: true})
+		if r["outcome"] != "ok" {
+			t.Fatalf("outcome %v: %v", r["outcome"], r["panic"])
+		}
+	})
+}
+
+func hexOf(b []byte) string {
+	const digits = "0123456789abcdef"
+	out := make([]byte, 0, 2*len(b))
+	for _, c := range b {
+		out = append(out, digits[c>>4], digits[c&15])
+	}
+	return string(out)
+}
